@@ -5,4 +5,5 @@ From V.c15 Require Import C15Model C15Spec.
 Require Import ExtrOcamlBasic.
 Separate Extraction
   parse_sps_er parse_sps_br flat_sps
-  nalu_sps expected_sps sps_valid sps_offsets_zero.
+  nalu_sps expected_sps sps_valid sps_offsets_zero
+  parse_pps_er parse_pps_br flat_pps nalu_pps expected_pps pps_valid.
